@@ -52,6 +52,7 @@ type c17Args struct {
 	Probe    string       `json:"probe"`
 	AltDir   string       `json:"altdir,omitempty"`    // base name of the directory handed to WithWorkingDirectory
 	AltDot   *c17EnvFile  `json:"altdotenv,omitempty"` // its .env
+	LM       bool         `json:"lm,omitempty"`        // also observe ProjectOptions.LoadModel
 	DirLink  bool         `json:"dirlink,omitempty"`   // the project directory is a symbolic link
 	AltLink  bool         `json:"altlink,omitempty"`   // the working directory is a symbolic link
 }
@@ -118,6 +119,12 @@ type c17Real struct {
 		Profiles []string          `json:"profiles"`
 		Enabled  map[string]bool   `json:"enabled"`
 		Res      map[string]string `json:"res"`
+		LM       *struct {
+			Name  string            `json:"name"`
+			Probe string            `json:"probe"`
+			Res   map[string]string `json:"res"`
+			Err   string            `json:"err"`
+		} `json:"lm"`
 	} `json:"ok"`
 	Err string `json:"err"`
 	At  string `json:"at"`
@@ -218,6 +225,23 @@ func c17Judge(args, real, drv json.RawMessage) *core.Verdict {
 			if got, want := r.Ok.Res[k], r.Ok.Name+"_"+k; got != want {
 				return core.Fail("implicit-resource-name:expected="+c17Source(s, r.Ok.Name)+",got="+c17ResSource(s, got, k),
 					fmt.Sprintf("Project.Name=%q but the unnamed resource %q is called %q (want %q)", r.Ok.Name, k, got, want))
+			}
+		}
+		// the raw-model entry (ProjectOptions.LoadModel) decides the same name and names the resources after it
+		if lm := r.Ok.LM; lm != nil {
+			if lm.Err != "" {
+				return core.Fail("load-model:fails-where-load-project-succeeds", "LoadModel: "+lm.Err)
+			}
+			if lm.Name != r.Ok.Name {
+				return core.Fail("load-model:name-precedence:expected="+c17Source(s, r.Ok.Name)+",got="+c17Source(s, lm.Name), fmt.Sprintf("LoadProject names the project %q, LoadModel %q", r.Ok.Name, lm.Name))
+			}
+			if lm.Probe != r.Ok.Probe {
+				return core.Fail("load-model:interpolation-sees-other-environment", fmt.Sprintf("LoadProject interpolates the probe to %q, LoadModel to %q", r.Ok.Probe, lm.Probe))
+			}
+			for _, k := range c17ResKeys {
+				if got, want := lm.Res[k], lm.Name+"_"+k; got != want {
+					return core.Fail("load-model:implicit-resource-name:got="+c17ResSource(s, got, k), fmt.Sprintf("LoadModel: name %q but the unnamed resource %q is called %q", lm.Name, k, got))
+				}
 			}
 		}
 		if v := c17ProfileOracle(args, r.Ok.Profiles, r.Ok.Enabled, s); v != nil {
